@@ -134,7 +134,7 @@ def touchedB (bs : Nat) (signed disk : List Byte) (off len : Nat) : Bool :=
 
 /-- the verdict of the end-of-file probe -/
 def probeB (bs : Nat) (signed disk : List Byte) (off len : Nat) : Bool :=
-  if off + len ≥ disk.length then blockValid bs signed disk ((max off disk.length) / bs) else true
+  if off + len > disk.length then blockValid bs signed disk ((max off disk.length) / bs) else true
 
 theorem skRead_eq (bs : Nat) (signed disk : List Byte) (off len : Nat) :
     skRead bs signed disk off len =
@@ -158,7 +158,7 @@ theorem skRead_ok (bs : Nat) (hbs : 0 < bs) (signed disk : List Byte) (off len :
       obtain ⟨ht, hp⟩ := hc
       apply drop_take_ext
       intro i hi1 hi2
-      by_cases hA : off + len ≥ disk.length
+      by_cases hA : off + len > disk.length
       · -- the request reaches the end of the disk file: the probe says `signed` ends no later
         rw [if_pos hA] at hp
         have hprobe := blockValid_cover bs hbs signed disk _ hp
